@@ -300,7 +300,7 @@ def isTemp : Outcome → Bool
   | .neterr t => t
   | .srcFault _ t => t
 
-theorem temp_status (c : Nat) (h : statusIsTemporary c = true) : ¬ c < 300 ∧ c ≠ 406 := by
+theorem temp_status (c : Nat) (h : statusIsTemporary c = true) : ¬ c < 300 ∧ ¬ (c = 406 ∨ c = 415) := by
   unfold statusIsTemporary at h
   simp at h
   omega
